@@ -29,10 +29,13 @@ BLOCKS = [("ph,ph", "ia,jb"), ("ph,pphh", "ia,jkbc"), ("pphh,pphh", "ijab,klcd")
           ("h,h", "i,j"), ("ph", "ia,jb"), ("ph,ph", "ia")]
 
 
-def new_isr(vc):
+VARIANTS = {"pp": ["ph", "hp"], "ea": ["p"], "ip": ["h"], "dip": ["hh"], "dea": ["pp"]}
+
+
+def new_isr(vc, variant="pp"):
     gs = c02.new_gs(vc)
     return Inst(ISR, {"gs": gs, "indices": Struct("Indices"),
-                      "variant": "pp", "min_space": PList(["ph", "hp"])})
+                      "variant": variant, "min_space": PList(list(VARIANTS[variant]))})
 
 
 class _Assumed(Contract):
